@@ -435,7 +435,8 @@ pub fn run(c: &Case) -> Outcome {
                     if is_simple && !a0.directed && loopfree {
                         g_cliques(&g1, &v1, $name, &mut ans);
                     }
-                    if is_simple {
+                    // VF2 is exponential on sparse symmetric graphs (25 nodes, 20 edges: > 10 min): small graphs only
+                    if is_simple && n <= 10 {
                         ans.put("is_isomorphic(Graph, Graph relabeled)", "pair", || format!("{}", is_isomorphic(&g0, &g1)));
                     }
                 }};
